@@ -49,6 +49,8 @@ P1, P2, P3 = ["P", 1], ["P", 2], ["P", 3]
 
 def mk(name, cell, gdim, elems, coef, args, *, coords=("x",), lits=(2,), pows=(2,), ops=ALL_OPS, depth=2, right=1, idx=(10, 11), poly=False, polymax=6, ascoded="holds"):
     """ascoded: what TLC must find for the as-coded rule on this pool: 'holds' / 'fails'."""
+    if len({k for _, k in args}) != len(list(args)):
+        raise MachineryError("one Argument per number (a form cannot combine two test functions)")
     return dict(name=name, cell=cell, gdim=gdim, elems=elems, coef=list(coef), args=[list(a) for a in args], coords=list(coords), lits=list(lits), pows=list(pows), ops=list(ops), depth=depth, right=right, idx=list(idx), poly=poly, polymax=polymax, ascoded=ascoded)
 
 
@@ -66,16 +68,17 @@ def configs(tier):
     # the degree rules against polynomial arithmetic (CQ's range: low degrees, depth 2)
     poly = mk("flat-poly", "triangle", 2, [["mixed", [["vecP", 1, 2], P2]]], (1,), [(1, 0)], poly=True, polymax=5, idx=(10,), ops=small)
     if tier == "quick":
+        # (few, small TLC runs: on the shared machine a JVM start costs seconds)
         return [
             imm,
-            dict(symn, ops=list(small), coords=[]),
-            dict(symh, ops=["indexed", "pow", "grad", "prod", "sum"], idx=[10]),
-            poly,
+            # symmetric element with different sub-element degrees + nested mixed element, low degrees:
+            # also validates the degree rules by polynomial arithmetic (CQ's range)
+            mk("sym-nested-poly", "triangle", 2, [["sym", [P1, P2, P1]], ["mixed", [["mixed", [["vecP", 1, 2], P1]], P2]]], (1, 2), [(1, 0), (2, 1)], coords=(), idx=(10,), ops=("indexed", "pow", "grad", "prod", "sum", "list", "inner"), poly=True, polymax=5, ascoded="fails"),
         ]
     return [
         dict(flat, depth=3),
         dict(imm, depth=3),
-        dict(symn, depth=3),
+        dict(symn, depth=3, ops=list(small) + ["transposed"]),
         symh,
         dict(flat, name="flat-mixed-poly", poly=True),
         mk("flat-poly-sym", "triangle", 2, [["sym", [P1, P2, P1]], ["vecP", 1, 2]], (1, 2), [(2, 0)], coords=("x", "X"), poly=True, ascoded="fails", ops=no_outer),
@@ -136,6 +139,7 @@ SPECIFICATION Spec
 SEEDS_ALL = "{<< >>}"
 SEEDS_FILE = 'LET s == JsonDeserialize("seeds.json") IN {<<s[i]>> : i \\in DOMAIN s}'
 JAVA = "-DTLA-Library=/verif/spec -Xmx4g -XX:ParallelGCThreads=2"
+JAVA_SHORT = JAVA + " -XX:TieredStopAtLevel=1"  # runs of a few seconds: skip the optimising JIT
 
 
 def _set(xs, q=False):
@@ -160,7 +164,7 @@ class Job:
         if self.dump:
             invs.append("Checked")
         cfg = CFG.format(gdim=c["gdim"], tdim=TDIM[c["cell"]], coords=_set(c["coords"], True), lits=_set(c["lits"]), pows=_set(c["pows"]), ops=_set(c["ops"], True), depth=0 if given else c["depth"], right=c["right"], idx=_set(c["idx"]), rule=self.rule, poly="TRUE" if poly else "FALSE", polymax=c["polymax"], holds="TRUE" if (self.dump and not given and c["ascoded"] == "holds") else "FALSE", dump="TRUE" if self.dump else "FALSE", invs="\n".join("INVARIANT " + i for i in invs))
-        kw = dict(mc_text=mc, mc_name="MC_Degree", timeout=1500, workers=self.workers, env={"JAVA_TOOL_OPTIONS": JAVA})
+        kw = dict(mc_text=mc, mc_name="MC_Degree", timeout=1500, workers=self.workers, env={"JAVA_TOOL_OPTIONS": JAVA if (c["depth"] >= 3 and not given) else JAVA_SHORT})
         if given:
             kw["extra_files"] = {"seeds.json": json.dumps([rec_of(t) for t in self.seeds])}
         res = tlc.run("Degree", cfg, **kw)
@@ -738,11 +742,11 @@ def real_estimate(expr):
 
 
 def form_estimates(e, expr):
-    """Estimated degrees attached by compute_form_data to the integrals of expr*dx."""
+    """[(estimated degree attached by compute_form_data, processed integrand)] for expr*dx."""
     from ufl.algorithms import compute_form_data
 
     fd = compute_form_data(expr * e.ufl.dx(e.mesh))
-    return [itg.metadata()["estimated_polynomial_degree"] for itd in fd.integral_data for itg in itd.integrals]
+    return [(itg.metadata()["estimated_polynomial_degree"], itg.integrand()) for itd in fd.integral_data for itg in itd.integrals]
 
 
 def culprit(e, expr):
@@ -794,10 +798,21 @@ def examine(e, line, do_form):
     except Unsupported as ex:
         r["rb"] = "unsupported:" + str(ex)
     r["true"] = e.true_degree(expr)
-    if do_form and expr.ufl_shape == () and not expr.ufl_free_indices:
-        r["form"] = form_estimates(e, expr)
-    if r["real"] < r["true"] or any(d < r["true"] for d in r.get("form", ())):
+    if r["real"] < r["true"]:
         r["fp"], r["why"] = culprit(e, expr)
+    if do_form and expr.ufl_shape == () and not expr.ufl_free_indices:
+        # what is integrated is the processed integrand (algebra lowered, derivatives applied):
+        # its own exact degree is the truth for the attached estimate
+        r["form"] = []
+        for d, integrand in form_estimates(e, expr):
+            try:
+                ft = e.true_degree(integrand)
+            except Unsupported:
+                ft = None
+            r["form"].append([d, ft])
+            if d < (r["true"] if ft is None else ft) and "form_fp" not in r:
+                r["form_fp"], r["form_why"] = culprit(e, integrand)
+                r["form_why"] += f" [processed integrand: {integrand}]"
     return r
 
 
@@ -853,6 +868,8 @@ class Verdict:
         self.forms = 0
         self.simplified = 0
         self.skipped = 0
+        self.form_unevaluated = 0
+        self.form_degree_changed = 0
 
 
 def judge(v, cfg, lines, obs, model_of_rb):
@@ -903,11 +920,16 @@ def judge(v, cfg, lines, obs, model_of_rb):
             v.under.append((line, o, "estimate_total_polynomial_degree"))
         elif real > true:
             v.over += 1
-        for d in o.get("form", ()):
+        bad = False
+        for d, ft in o.get("form", ()):
             v.forms += 1
-            if d < true:
-                v.under.append((line, o, "compute_form_data"))
-                break
+            if ft is None:
+                v.form_unevaluated += 1
+            elif len(o["form"]) == 1 and ft != true:
+                v.form_degree_changed += 1  # preprocessing changed the polynomial (not C18's business)
+            bad = bad or d < (true if ft is None else ft)
+        if bad:
+            v.under.append((line, o, "compute_form_data"))
     return v
 
 
@@ -919,14 +941,15 @@ _REPORTED = {}
 
 
 def report_under(ctx, cfg, line, o, route):
-    fp = o.get("fp", "C18:underestimate:unlocated")
+    form = route == "compute_form_data"
+    fp = o.get("form_fp" if form else "fp", "C18:underestimate:unlocated")
     ctx.count("underestimates:" + fp)
     _REPORTED[fp] = _REPORTED.get(fp, 0) + 1
     if _REPORTED[fp] > 3:
         return
     t = line[0]
-    shown = o["real"] if route == "estimate_total_polynomial_degree" else min(o["form"])
-    what = f"{route} of {fmt(t)} on {cfg['name']} (elements {cfg['elems']}, {cfg['cell']} in R^{cfg['gdim']}) is {shown} but the integrand has degree {o['true']}: {o.get('why', '')}"
+    shown = min(d for d, _ in o["form"]) if form else o["real"]
+    what = f"{route} of {fmt(t)} on {cfg['name']} (elements {cfg['elems']}, {cfg['cell']} in R^{cfg['gdim']}) is {shown} but the integrand has degree {o['true']}: {o.get('form_why' if form else 'why', '')}"
     ctx.violation(fp, what, {"config": cfg, "term": t, "route": route, "observed": shown, "true_degree": o["true"], "model": {"est_as_coded": line[1], "est_intended": line[2], "TrueDeg": line[3]}})
 
 
@@ -979,7 +1002,7 @@ def counterexample_term(res):
     stack = tlc.parse_value(text[len("stack = ") :])
     if len(stack) != 1:
         raise MachineryError("counterexample state does not hold exactly one term")
-    return pos_of(stack[0]), len(blocks) - 1
+    return pos_of(stack[0]["t"]), len(blocks) - 1
 
 
 def run(ctx, args):
@@ -1001,6 +1024,9 @@ def run(ctx, args):
     ctx.assume("polynomial integrands only: no division, abs, conditionals, math functions, non-integer / negative / non-literal exponents, quadrature or real elements")
     ctx.assume("the true degree is that of ONE exact member per space (full reference polynomials with distinct prime coefficients, pushed forward); TLC's TrueDeg (the supremum) must coincide with it on coordinate-free terms")
     ctx.assume("arguments occur so that the integrand is a valid multilinear form (disjoint argument sets in products, equal sets in sums)")
+    import ufl
+
+    print(f"  ufl: {ufl.__file__}", flush=True)
     start_pool(6)  # before the big TLC outputs are held in memory
     t0 = time.time()
     from concurrent.futures import ThreadPoolExecutor
@@ -1039,6 +1065,7 @@ def run(ctx, args):
                 print(f"  {c['name']}: TLC {nstates} states in {wall:.1f}s; {nterms} terms built, estimated and evaluated on real ufl, {time.time() - t0:.1f}s", flush=True)
             for st in pending:
                 settle(ctx, st, total)
+        notes(ctx)
     finally:
         stop_pool()
     conclude(ctx, total)
@@ -1104,6 +1131,8 @@ def settle(ctx, state, total):
     ctx.evaluated(3 * len(lines) + v.forms)
     ctx.count("terms:" + cfg["name"], len(lines))
     ctx.count("form_route_estimates", v.forms)
+    ctx.count("form_route_processed_integrand_not_evaluated", v.form_unevaluated)
+    ctx.count("form_route_preprocessing_changed_the_degree", v.form_degree_changed)
     ctx.count("overestimates", v.over)
     pool = json.dumps(cfg["elems"]) + cfg["cell"] + str(cfg["gdim"])
     for l in lines:
@@ -1125,6 +1154,16 @@ def settle(ctx, state, total):
     ctx.cov["undefined_skipped"] += v.skipped
     if v.skipped > 0.02 * len(lines):
         raise MachineryError(f"Degree[{cfg['name']}]: {v.skipped} of {len(lines)} terms cannot be built on real ufl")
+
+
+def notes(ctx):
+    """Recorded, not judged: inputs just outside the property as stated."""
+    e = env_of(mk("notes", "triangle", 2, [P3], (1,), []))
+    f = e.coef[1]
+    # f**2.0: the exponent is a float literal with an integral value -> heuristic degree(f) + 2 = 5 < 6;
+    # the property speaks of integer powers, so this is a note
+    if real_estimate(f**2.0) < 2 * 3:
+        ctx.count("note_outside_property:float-literal-exponent-2.0-estimated-by-heuristic")
 
 
 def conclude(ctx, total):
@@ -1169,12 +1208,15 @@ def replay(ctx, doc):
     print("term     :", fmt(t))
     print("real expr:", str(expr))
     print("model    :", r.get("model"))
-    print("estimate :", o["real"], " through compute_form_data:", o.get("form"))
+    print("estimate :", o["real"], " through compute_form_data [estimate, exact degree of the processed integrand]:", o.get("form"))
     print("exact degree of the integrand:", o["true"])
-    bad = o["real"] < o["true"] or any(d < o["true"] for d in o.get("form", ()))
-    print("verdict  :", "UNDERESTIMATE " + o.get("why", "") if bad else "no underestimate")
-    if bad:
-        ctx.violation(o.get("fp", doc.get("fingerprint", "C18:replay")), doc.get("what", "replayed case still fails"), r)
+    v = judge(Verdict(), cfg, [[t, None, None, o["true"], -2]], [dict(o, rb="unsupported:replay")], {})
+    for _, _, route in v.under:
+        form = route == "compute_form_data"
+        print("verdict  :", "UNDERESTIMATE by " + route + ": " + o.get("form_why" if form else "why", ""))
+        ctx.violation(o.get("form_fp" if form else "fp", doc.get("fingerprint", "C18:replay")), doc.get("what", "replayed case still fails"), r)
+    if not v.under:
+        print("verdict  : no underestimate")
 
 
 # --------------------------------------------------------------------------------------------
@@ -1213,7 +1255,7 @@ def selftest(ctx):
     rejected = {}
 
     def fps(v):
-        return sorted({o.get("fp") for _, o, _ in v.under})
+        return sorted({o[k] for _, o, _ in v.under for k in ("fp", "form_fp") if k in o})
 
     # mutants of the real estimator that under-count
     m = verdict(lines, {"product": SDE._max_degrees, "inner": SDE._max_degrees})
